@@ -638,6 +638,11 @@ func (x *Exec) appendOp(st *State, fr *Frame, in ssa.Instruction, cc *ssa.CallCo
 		t := args[1].(Term).S
 		tlen = app("s_len", t)
 		tget = func(i string) string { return app("select", app("select", arr, app("s_arr", t)), app("at", app("s_off", t), i)) }
+		if pa, po, lo, ok := subSliceOf(t, st); ok {
+			// t is s[lo:...]: address its elements as elements of s, so that facts known about s[k]
+			// (quantified over k, triggered by reads of s) apply to them by E-matching
+			tget = func(i string) string { return app("select", app("select", arr, pa), app("at", po, app("+", lo, i))) }
+		}
 	}
 	r := x.allocRefT(st, sT)
 	na := x.declare(st, "apd", "(Array Int "+es+")")
@@ -658,6 +663,10 @@ func (x *Exec) appendOp(st *State, fr *Frame, in ssa.Instruction, cc *ssa.CallCo
 	} else {
 		q2 := x.fresh("i")
 		x.assume(st, "(forall (("+q2+" Int)) (! (=> (and (<= 0 "+q2+") (< "+q2+" "+tlen+")) (= (select "+na+" (+ "+slen+" "+q2+")) "+tget(q2)+")) :pattern ((select "+na+" (+ "+slen+" "+q2+")))))")
+		// the same fact addressed by the position in the new array, triggered by any read of it (a pattern
+		// with `+` inside cannot be matched against a read at a Skolem index)
+		q3 := x.fresh("i")
+		x.assume(st, "(forall (("+q3+" Int)) (! (=> (and (<= "+slen+" "+q3+") (< "+q3+" (+ "+slen+" "+tlen+"))) (= (select "+na+" "+q3+") "+tget("(- "+q3+" "+slen+")")+")) :pattern ((select "+na+" "+q3+"))))")
 	}
 	x.setArr(st, name, srt, app("store", arr, r, na))
 	nl := x.define(st, "len", "Int", app("+", slen, tlen))
@@ -937,4 +946,32 @@ func isContextImpl(T types.Type) bool {
 		return n.Obj().Pkg().Path() == "context"
 	}
 	return false
+}
+
+// subSliceOf recognises a slice term defined as (mk_Slice (s_arr P) (+ (s_off P) LO) ...) and returns
+// (s_arr P), (s_off P) and LO.
+func subSliceOf(t string, st *State) (arrT, offT, lo string, ok bool) {
+	pre := "(define-fun " + t + " () Slice (mk_Slice "
+	for d := st.defs; d != nil; d = d.prev {
+		if !strings.HasPrefix(d.line, pre) {
+			continue
+		}
+		body := "(mk_Slice " + strings.TrimSuffix(d.line[len(pre):], ")")
+		args, good := sexprArgs(body)
+		if !good || len(args) != 5 {
+			return "", "", "", false
+		}
+		offArgs, good := sexprArgs(args[2])
+		if !good || len(offArgs) != 3 || offArgs[0] != "+" {
+			return "", "", "", false
+		}
+		if !strings.HasPrefix(args[1], "(s_arr ") || !strings.HasPrefix(offArgs[1], "(s_off ") {
+			return "", "", "", false
+		}
+		if strings.TrimPrefix(args[1], "(s_arr ") != strings.TrimPrefix(offArgs[1], "(s_off ") {
+			return "", "", "", false
+		}
+		return args[1], offArgs[1], offArgs[2], true
+	}
+	return "", "", "", false
 }
